@@ -109,6 +109,16 @@ let lib_of (c : case) : execLib =
     | None -> missed := true; false in
   fast (mk_lib (ctx_fixed c.tzoff now_sec) re members_in_order)
 
+(* When the order of object members is open, an outcome may depend on it (which member meets which error first).
+   The model is run under three member orders; only order-insensitive outcomes are compared with the implementation. *)
+let lib_with_order (c : case) (perm : json list -> json list) : execLib =
+  let re pat flags subj =
+    match List.assoc_opt (unchars pat, int_of_z flags, unchars subj) c.retab with
+    | Some b -> b
+    | None -> missed := true; false in
+  fast (mk_lib (ctx_fixed c.tzoff now_sec) re (fun l -> perm (members_in_order l)))
+let rotate = function [] -> [] | x :: r -> r @ [x]
+
 let opts_of (c : case) (r : run) : opts =
   { o_vars = c.vars; o_vars_tag = c.vars_tag; o_silent = r.silent; o_useTZ = c.usetz;
     o_cancel_at = (if r.k < 0 then None else Some (nat_of_int r.k)); o_next_tag = c.next_tag }
@@ -183,10 +193,16 @@ let tie_leg (c : case) =
           bump "comparisons";
           missed := false;
           let m = model_of entry in
+          let order_insensitive () =
+            let alt perm = obs_of_q (api_query (lib_with_order c perm) fuel c.path c.doc o) in
+            let ok = obs_eqb true c.kv m (alt List.rev) && obs_eqb true c.kv m (alt rotate) in
+            if not ok then bump "skipped_order_dependent";
+            ok in
           let comparable =
             if not c.unordered then true
             else (entry = "query" && not r.silent && r.k < 0
-                  && (match impl, m with ObItems _, ObItems _ -> true | _ -> false)) in
+                  && (match impl, m with ObItems _, ObItems _ -> true | _ -> false)
+                  && order_insensitive ()) in
           if comparable && not (obs_eqb c.unordered c.kv impl m) then begin
             if !missed then bump "oracle_miss"
             else begin
@@ -236,7 +252,21 @@ let spec_leg (c : case) =
               if not c.unordered then true
               else if c.haskv && chain_has is_wild c.path.p_root then false
               else (entry = "query" && not r.silent
-                    && (match impl, spec_obs lib c o entry quirks_code with ObItems _, ObItems _ -> true | _ -> false)) in
+                    && (match impl, spec_obs lib c o entry quirks_code with ObItems _, ObItems _ -> true | _ -> false)
+                    && List.for_all (fun q ->
+                        (* the specification iterates members in list order: permute the inputs themselves *)
+                        let rec pj perm (v : json) : json = match v with
+                          | JArr (t, l) -> JArr (t, List.map (pj perm) l)
+                          | JObj (t, l) -> JObj (t, perm (List.map (fun (k, x) -> (k, pj perm x)) l))
+                          | _ -> v in
+                        let alt perm =
+                          let c' = { c with doc = pj perm c.doc; vars = List.map (fun (k, v) -> (k, pj perm v)) c.vars } in
+                          spec_obs lib c' { o with o_vars = c'.vars } entry q in
+                        let s0 = spec_obs lib c o entry q in
+                        let ok = obs_eqb true c.kv s0 (alt List.rev) && obs_eqb true c.kv s0 (alt rotate) in
+                        if not ok then bump "skipped_order_dependent";
+                        ok)
+                      [quirks_code; quirks_ideal]) in
             if comparable then begin
               bump "spec_comparisons";
               missed := false;
@@ -504,6 +534,13 @@ let check_c20 (c : case) =
                   | "eom" -> if c.path.p_pred then "query" else "exists"
                   | _ -> "query") in
               let total = (match polls_in b ref_entry with Some n -> n | None -> 0) in
+              (* a context that is done before the call is always reported, whatever the path: every evaluation
+                 polls at least once (C20_every_run_polls) *)
+              if r.k = 0 && total = 0 then
+                (match o with
+                 | ObErr OECancel -> ()
+                 | _ -> prop_line "C20" c (Printf.sprintf "done-before-the-call-%s-%s-%s" entry (if r.silent then "silent" else "verbose") r.cause)
+                          "NONE" (string_of_obs o));
               if r.k < total then begin
                 (* the context is done at a poll this evaluation reaches *)
                 (match o with
@@ -946,7 +983,7 @@ let () =
   List.iter (fun g -> finish_group g (List.rev (Hashtbl.find groups g)); related := []) (List.rev !group_order);
   Printf.printf "STAT distinct_nontrivial n=%d\n" (count "distinct_nontrivial");
   List.iter (fun name -> if count name > 0 then Printf.printf "STAT %s n=%d\n" name (count name))
-    ["skipped_kv_id_flows"; "thm_cases"; "thm_hyp_ok"; "thm_hyp_quirk_free"; "thm_instances"; "thm_ideal_instances"; "thm_total_instances"; "thm_failures"; "thm_premise_not_ret"; "thm_hyp_no_kv_fails"; "thm_hyp_exists_ok_fails";
+    ["skipped_kv_id_flows"; "skipped_order_dependent"; "thm_cases"; "thm_hyp_ok"; "thm_hyp_quirk_free"; "thm_instances"; "thm_ideal_instances"; "thm_total_instances"; "thm_failures"; "thm_premise_not_ret"; "thm_hyp_no_kv_fails"; "thm_hyp_exists_ok_fails";
      "thm_hyp_ne_ops_fails"; "thm_hyp_unary_tail_free_fails"; "c12_pairs"; "c12_triples"; "c13_checked"; "c11_groups"; "c09_groups"; "c10_groups"; "cancel_runs";
      "prop_C05"; "prop_C06"; "prop_C08"; "prop_C09"; "prop_C10"; "prop_C11"; "prop_C12"; "prop_C13"; "prop_C16"; "prop_C20"];
   Printf.printf "SUMMARY cases=%d runs=%d comparisons=%d ties=%d polls=%d impure=%d skipped=%d oracle_miss=%d spec_comparisons=%d spec_mismatches=%d\n"
